@@ -1,8 +1,45 @@
-(* Instance lemma for C09: every field of every pooled type is reset on every release path
-   (complete evaluation of the regenerated probe table). *)
+(* Instance lemmas for C09 (complete evaluation of tables regenerated from the compiled code on every run).
+   Cleanliness: every field of every pooled type is reset on every release path.
+   Ownership: facts about the release paths measured by the reflective probe (vh owntable), about the
+   trees the parser builds (vh ownshare) and about the slices handed to callers (vh ownalias). *)
 From Coq Require Import List NArith Bool.
-From GV Require Import Model.Pool Gen.PoolTable.
+From GV Require Import Model.Pool Gen.PoolTable Model.Own Gen.OwnTable.
 Import ListNotations.
 
 Lemma cleared_ok : cleared_except pool_all pool_cleared pool_known = true.
+Proof. vm_compute. reflexivity. Qed.
+
+(* the release tables of the current code *)
+Definition cur_pooled := tbl1 own_pooled.
+Definition cur_container := tbl1 own_container.
+Definition cur_descend := tbl2 own_descend.
+Definition cur_keeps := tbl2 own_keeps.
+Definition cur_budget := N.to_nat own_budget_observed.
+
+(* a Put leaves no reference to a child behind in the pooled object *)
+Lemma keeps_none : own_keeps = [].
+Proof. vm_compute. reflexivity. Qed.
+
+Lemma cur_keeps_false : forall ty f, cur_keeps ty f = false.
+Proof. intros ty f. unfold cur_keeps, tbl2. rewrite keeps_none. reflexivity. Qed.
+
+(* no release probe put an object twice *)
+Lemma no_double_put_in_probe : own_double = [].
+Proof. vm_compute. reflexivity. Qed.
+
+(* a release writes only the objects it puts into a pool *)
+Lemma release_writes_only_what_it_puts : own_written = [].
+Proof. vm_compute. reflexivity. Qed.
+
+(* the observed work-queue budget is the declared constant *)
+Lemma budget_is_constant : own_budget_observed = own_budget_const.
+Proof. vm_compute. reflexivity. Qed.
+
+(* where parsed trees store one object in several slots, a release goes on into at most one of them
+   (so it meets the object once) *)
+Lemma shared_slots_not_released : shared_reached_once own_shared_groups own_descend = true.
+Proof. vm_compute. reflexivity. Qed.
+
+(* no result handed to a caller was observed to alias a buffer the library writes later (or vice versa) *)
+Lemma results_alias_nothing : alias_free alias_rows = true.
 Proof. vm_compute. reflexivity. Qed.
